@@ -73,8 +73,10 @@ def write_evidence(prop: str, mod: Any, acc: Acc, tier: str, seed: int, wall: fl
         "wall_s": round(wall, 2), "violations": nviol,
         "repo": REPO,
     }
-    os.makedirs(os.path.join(HOME, "evidence"), exist_ok=True)
-    with open(os.path.join(HOME, "evidence", prop + ".json"), "w") as fh:
+    # evidence/ describes /repo only; a run against a scratch copy (VERIF_REPO, used for seeded changes) goes aside
+    edir = os.path.join(HOME, "evidence") if os.path.realpath(REPO) == os.path.realpath("/repo") else os.path.join(HOME, "replays", "scratch-evidence")
+    os.makedirs(edir, exist_ok=True)
+    with open(os.path.join(edir, prop + ".json"), "w") as fh:
         fh.write(json.dumps(ev, indent=1, ensure_ascii=True, default=repr) + "\n")
 
 
